@@ -14,7 +14,6 @@
      bad_registration t cmd         a name/alias is invalid after lower-casing, or the
                                     lower-cased name and aliases repeat a key, or one of them
                                     is already a key of the table
-     has_fffd prefix                the prefix contains U+FFFD (EF BF BD)
    An outcome is ONE value: Nothing, one Invoke (the `go cmd.Fn(client, in)`), or one reply;
    "exactly once" is this, and the Go-side oracle counts the calls it observes. *)
 Require Import Bytes GoLower Ctcp CmdHandler CmdSpec CmdProofs.
@@ -39,44 +38,26 @@ Proof. exact invoke_addressed. Qed.
 Print Assumptions C18_invoke.
 
 (* The converse: whenever a function runs, all of the above held - there was a source, the
-   command was PRIVMSG, the name is valid, registered, not "help", the remainder has no
-   newline, the arguments are the split of the remainder and reach MinArgs, and the text is
-   prefix ++ name ++ (nothing | SPACE ++ raw).  The last part needs the prefix to be free of
-   U+FFFD (see C18_fffd_prefix_refuted); for any prefix the text still has that shape with
-   some p' no longer than the prefix in the place of the prefix. *)
+   command was PRIVMSG, the text is  prefix ++ name ++ (nothing | SPACE ++ raw)  with a valid
+   name that is registered and not "help" and a newline-free remainder, the arguments are
+   the split of the remainder and reach MinArgs.  So a different prefix, an unknown name,
+   an upper-case name, more than 20 name bytes, another IRC command, a missing source run
+   nothing.  Again for EVERY prefix. *)
 Theorem C18_nothing_else : forall h e c args raw,
   execute h e = Invoke c args raw ->
   exists src n, ev_source e = Some src /\ ev_command e = PRIVMSG /\
-    name_ok n /\ n <> help_name /\ ~ In 10 raw /\
+    addresses (h_prefix h) (last_param e) n raw /\ n <> help_name /\
     tbl_get n (h_cmds h) = Some c /\ args_split raw args /\
-    (c_minargs c <= Z.of_nat (length args))%Z /\
-    (has_fffd (h_prefix h) = false -> addresses (h_prefix h) (last_param e) n raw) /\
-    (exists p', (length p' <= length (h_prefix h))%nat /\
-                ((last_param e = p' ++ n /\ raw = []) \/ last_param e = p' ++ n ++ 32 :: raw)).
+    (c_minargs c <= Z.of_nat (length args))%Z.
 Proof. exact invoke_only_addressed. Qed.
 Print Assumptions C18_nothing_else.
 
-(* FULL-STRENGTH STATEMENT THAT IS FALSE OF THE CODE AS IT IS:
-     forall h e c args raw, execute h e = Invoke c args raw ->
-       exists n, addresses (h_prefix h) (last_param e) n raw        (no hypothesis on the prefix)
-   Refuted: with the prefix U+FFFD (New accepts it) the text "\xffping" runs ping although
-   it does not begin with the prefix: Go's regexp decodes an invalid byte of the text as
-   U+FFFD.  Witness on the Go code: harness/witness/cmd_test.go
-   TestOpenC18_PrefixReplacementRune; patch: notes/proposed-fixes/cmdhandler-literal-prefix.diff. *)
-Theorem C18_fffd_prefix_refuted :
-  exists h e c args raw,
-    new_handler (h_prefix h) = Some (mk_handler (h_prefix h) []) /\
-    reachable (h_cmds h) /\
-    execute h e = Invoke c args raw /\
-    ~ prefixb (h_prefix h) (last_param e) = true /\
-    forall n raw', ~ addresses (h_prefix h) (last_param e) n raw'.
-Proof. exact fffd_prefix_refuted. Qed.
-Print Assumptions C18_fffd_prefix_refuted.
-
-Theorem C18_has_fffd_meaning : forall p,
-  has_fffd p = false <-> forall a b, p <> a ++ [239; 191; 189] ++ b.
-Proof. exact has_fffd_false_iff. Qed.
-Print Assumptions C18_has_fffd_meaning.
+(* what the regular expression (and the prefix test before it) accepts is exactly what the
+   statement calls an addressed text *)
+Theorem C18_match_exact : forall prefix text n raw,
+  cmd_match prefix text = Some (n, raw) <-> addresses prefix text n raw.
+Proof. exact cmd_match_iff. Qed.
+Print Assumptions C18_match_exact.
 
 (* "exactly the addressed command": a text addresses at most one name and remainder *)
 Theorem C18_addressed_unique : forall prefix text n raw n' raw',
@@ -115,8 +96,7 @@ Print Assumptions C18_unknown_name.
 
 (* `.` does not match '\n' and `$` (no (?m)) is the end of the text only *)
 Theorem C18_newline : forall h e c args raw,
-  In 10 (last_param e) -> ~ In 10 (h_prefix h) -> has_fffd (h_prefix h) = false ->
-  execute h e <> Invoke c args raw.
+  In 10 (last_param e) -> ~ In 10 (h_prefix h) -> execute h e <> Invoke c args raw.
 Proof. exact newline_never_invokes. Qed.
 Print Assumptions C18_newline.
 
